@@ -172,6 +172,16 @@ KERNELS = [
          params=[("tree", "Tree"), ("uniset", "Opaque"), ("proba", "Int"), ("max_leve", "Int")], ret="Tree", streams=True,
          tree_calls={"get_args_id": "Tree_get_args_id", "subtree": "Tree_subtree", "concat": "Tree_concat"},
          ext_fn={"sattolo_shuffle": ("shuffler", ["arr"])}),
+    # ---- tree initialisation: the two stack loops of Tree.full_growing_method / Tree.growing_method; the draws of the universal set are
+    #      function parameters of the call's ordinal, `node._n_args` a function on identifiers, the loop bound an explicit fuel parameter
+    dict(name="Tree_full_growing_method", file="base/_tree.py", cls="Tree", func="full_growing_method",
+         params=[("uniset", "Opaque"), ("max_level", "Int")], ret="Tree", streams=True, fuel="fuelp", fuel_param=True, cls_ctor=True,
+         node_attrs={"_n_args": "nodeArity"},
+         opaque_fn={"uniset._random_functional": ("randFunctional", []), "uniset._random_terminal_or_ephemeral": ("randTerminal", [])}),
+    dict(name="Tree_growing_method", file="base/_tree.py", cls="Tree", func="growing_method",
+         params=[("uniset", "Opaque"), ("max_level", "Int")], ret="Tree", streams=True, fuel="fuelp", fuel_param=True, cls_ctor=True,
+         node_attrs={"_n_args": "nodeArity"},
+         opaque_fn={"uniset._random_functional": ("randFunctional", []), "uniset._random_terminal_or_ephemeral": ("randTerminal", [])}),
     # ---- the donor strategies of differential evolution: straight-line vector arithmetic (translated over the ring Int: the
     #      float operations are read as ring operations) on rows chosen by random_sample, which is a parameter taking
     #      the call's actual arguments and the call's ordinal: `sample range_size quantity replace k`
@@ -309,7 +319,7 @@ class Tr:
         if self.tree2(e) is not None:
             return "Tree"
         if isinstance(e, ast.Subscript):
-            if self.is_sample1(e):
+            if self.is_sample1(e) or self.is_uniform1(e):
                 return "Int"
             if isinstance(e.slice, ast.Slice) or is_np(e.value, "r_") or self.is_mask_index(e):
                 return "Arr"
@@ -323,7 +333,7 @@ class Tr:
             nm = callname(f)
             if isinstance(f, ast.Attribute) and f.attr == "copy":
                 return "Tree" if self.is_tree_value(f.value) else self.ty(f.value)
-            if isinstance(f, ast.Name) and f.id == "Tree":
+            if isinstance(f, ast.Name) and (f.id == "Tree" or (f.id == "cls" and self.cfg.get("cls_ctor"))):
                 return "Tree"
             if nm in self.tree_ext_fn:
                 return "Tree"
@@ -469,6 +479,16 @@ class Tr:
             t = self.tmp(KERNEL_BY_NAME[callee]["ret"])
             args = " ".join(self.E(a, env) for a in e.args)
             lines.append(f"(match {callee} self_nodes self_nargs {args} with | some v => {{ s with {t} := v }} | none => {{ s with err := true }})")
+            env[id(e)] = f"s.{t}"
+            return
+        if self.is_uniform1(e):
+            if guarded:
+                raise NotRecognised(f"effectful call {ast.unparse(e)} under a short-circuit operator")
+            if not self.streams:
+                raise NotRecognised("random draw in a kernel without streams")
+            t = self.tmp("Int")
+            self.used_streams.add("us")
+            lines.append(f"{{ s with {t} := Imp.geti us s.ku, dry := s.dry || decide (us.length ≤ s.ku), ku := s.ku + 1 }}")
             env[id(e)] = f"s.{t}"
             return
         if self.is_randint1(e):
@@ -648,7 +668,7 @@ class Tr:
         if isinstance(e, ast.Name) and self.is_tree_value(e):
             mk = lambda a: self.tree_attr(ast.Attribute(value=e, attr=a))
             return mk("_nodes"), mk("_n_args")
-        if isinstance(e, ast.Call) and isinstance(e.func, ast.Name) and e.func.id == "Tree" and len(e.args) == 2:
+        if isinstance(e, ast.Call) and isinstance(e.func, ast.Name) and (e.func.id == "Tree" or (e.func.id == "cls" and self.cfg.get("cls_ctor"))) and len(e.args) == 2:
             return self.E(e.args[0], env), self.E(e.args[1], env)
         raise NotRecognised(f"tree expression {ast.unparse(e)}")
 
@@ -697,6 +717,19 @@ class Tr:
         """randint(lo, hi, 1)[0]"""
         return (isinstance(e, ast.Subscript) and isinstance(e.slice, ast.Constant) and e.slice.value == 0 and isinstance(e.value, ast.Call)
                 and callname(e.value.func) == "randint" and len(e.value.args) == 3 and isinstance(e.value.args[2], ast.Constant) and e.value.args[2].value == 1)
+
+    @staticmethod
+    def is_uniform1(e):
+        """uniform(low=0, high=1, size=1)[0]: one uniform draw from [0, 1)"""
+        if not (isinstance(e, ast.Subscript) and isinstance(e.slice, ast.Constant) and e.slice.value == 0 and isinstance(e.value, ast.Call)
+                and callname(e.value.func) == "uniform"):
+            return False
+        c = e.value
+        vals = {k.arg: k.value for k in c.keywords}
+        for n_, a in zip(("low", "high", "size"), c.args):
+            vals[n_] = a
+        ok = lambda n_, v: isinstance(vals.get(n_), ast.Constant) and vals[n_].value == v
+        return len(vals) == 3 and ok("low", 0) and ok("high", 1) and ok("size", 1)
 
     def is_sample1(self, e):
         """random_sample(range_size=R, quantity=1, replace=True)[0]"""
@@ -1382,6 +1415,8 @@ class Tr:
             extra += " (rolls : List Int)"
         extra += "".join(f" ({v} : List (List Int))" for v in self.ext_stream.values())
         extra += "".join(f" ({par} : " + " → ".join(LTY[KERNEL_PARAM_TY[nm_][a]] for a in names) + " → Nat → List Int)" for nm_, (par, names) in self.ext_fn.items())
+        if cfg.get("fuel_param"):
+            extra += " (fuelp : Nat)"
         extra += "".join(f" ({par} : Int → List (List Int))" for par in self.tree_ext_fn.values())
         extra += "".join(f" ({par} : Int → Bool)" for par in self.node_preds.values())
         extra += "".join(f" ({par} : Int → Int)" for par in self.node_attrs.values())
